@@ -1,17 +1,24 @@
 import VermouthModel.C12
 open Proto C12
 
-def attrsOf (n r c : Tok) : Option Attrs := do
-  pure { name := ← n.optStr?, resid := ← r.optInt?, cg := ← c.optInt? }
+def attrsOf (n r c : Tok) (ch : Tok := Tok.none) : Option Attrs := do
+  pure { name := ← n.optStr?, resid := ← r.optInt?, cg := ← c.optInt?, chain := ← ch.optStr? }
 
 def nodeOf (t : Tok) : Option (Int × Attrs) := do
   match ← t.list? with
   | [k, n, r, c] => pure (← k.int?, ← attrsOf n r c)
+  | [k, n, r, c, ch] => pure (← k.int?, ← attrsOf n r c ch)
   | _ => none
 
 def bnodeOf (t : Tok) : Option (String × Attrs) := do
   match ← t.list? with
   | [k, n, r, c] => pure (← k.str?, ← attrsOf n r c)
+  | [k, n, r, c, ch] => pure (← k.str?, ← attrsOf n r c ch)
+  | _ => none
+
+def tmplAttrsOf (t : Tok) : Option Attrs := do
+  match ← t.list? with
+  | [n, r, c, ch] => attrsOf n r c ch
   | _ => none
 
 def pairLe (a b : Int × Int) : Bool := a.1 < b.1 || (a.1 == b.1 && a.2 ≤ b.2)
@@ -21,7 +28,7 @@ def dedupAdj : List (Int × Int) → List (Int × Int)
   | l => l
 
 def dumpMol (m : Mol) : String :=
-  let nodes := m.nodes.map fun (k, a) => encList [encInt k, encOptStr a.name, encOptInt a.resid, encOptInt a.cg]
+  let nodes := m.nodes.map fun (k, a) => encList [encInt k, encOptStr a.name, encOptInt a.resid, encOptInt a.cg, encOptStr a.chain]
   let es := dedupAdj ((m.edges.map fun (u, v) => (min u v, max u v)).mergeSort pairLe)
   let edges := es.map fun (u, v) => encList [encInt u, encInt v]
   let its := m.inters.mergeSort (fun a b => a.1 ≤ b.1)
@@ -35,6 +42,13 @@ def opOf (toks : List Tok) : Option Op :=
   match toks with
   | [Tok.str "new", n] => do pure (.newMol (← n.optInt?))
   | [Tok.str "addnode", m, k, n, r, c] => do pure (.addNode (← m.nat?) (← k.int?) (← attrsOf n r c))
+  | [Tok.str "addnode", m, k, n, r, c, ch] => do pure (.addNode (← m.nat?) (← k.int?) (← attrsOf n r c ch))
+  | [Tok.str "rmmatch", m, ty, atoms, pr, v, aa] => do
+      let aa' ← match aa with
+        | Tok.none => pure none
+        | t => do pure (some (← (← t.list?).mapM tmplAttrsOf))
+      pure (.removeMatching (← m.nat?) (← ty.str?)
+        { atoms := ← ints? atoms, params := ← pr.optStr?, version := ← v.optInt?, atomAttrs := aa' })
   | [Tok.str "addnodes", m, l] => do pure (.addNodes (← m.nat?) (← (← l.list?).mapM nodeOf))
   | [Tok.str "rmnode", m, k] => do pure (.removeNode (← m.nat?) (← k.int?))
   | [Tok.str "rmnodes", m, ks] => do pure (.removeNodes (← m.nat?) (← ints? ks))
@@ -45,6 +59,14 @@ def opOf (toks : List Tok) : Option Op :=
       pure (.addOrReplace (← m.nat?) (← ty.str?) (← ints? atoms) (← pr.str?) (← v.int?) (← strs? cs))
   | [Tok.str "rminter", m, ty, atoms, v] => do
       pure (.removeInter (← m.nat?) (← ty.str?) (← ints? atoms) (← v.int?))
+  | [Tok.str "prune", m, a, b] => do pure (.pruneEdges (← m.nat?) (← ints? a) (← ints? b))
+  | [Tok.str "prunesel", m, na, nb] => do
+      let nb' ← match nb with
+        | Tok.none => pure none
+        | t => do match ← strs? t with
+          | [x] => pure (some x)
+          | _ => none
+      pure (.pruneByName (← m.nat?) (← na.str?) nb')
   | [Tok.str "copy", m] => do pure (.copy (← m.nat?))
   | [Tok.str "subgraph", m, ks] => do pure (.subgraph (← m.nat?) (← ints? ks))
   | [Tok.str "merge", i, j] => do pure (.merge (← i.nat?) (← j.nat?))
@@ -62,14 +84,27 @@ def opOf (toks : List Tok) : Option Op :=
               (← ao.int?) (← ro.int?) (← co.int?))
   | _ => none
 
-def handle (p : Pool) (toks : List Tok) : Pool × String :=
+def sopOf (toks : List Tok) : Option SOp :=
   match toks with
-  | [Tok.str "reset"] => ([], "ok [ ]")
-  | _ =>
-    match opOf toks with
-    | none => (p, "bad-op")
-    | some op =>
-      let (p', o) := step p op
-      (p', o.str ++ " " ++ dumpPool p')
+  | [Tok.str "newsys"] => some .newSys
+  | [Tok.str "addmol", s, i] => do pure (.addMol (← s.nat?) (← i.nat?))
+  | [Tok.str "copysys", s] => do pure (.copySys (← s.nat?))
+  | [Tok.str "mergeall", s] => do pure (.mergeAll (← s.nat?))
+  | [Tok.str "mergechains", s, cs, a] => do
+      pure (.mergeChains (← s.nat?) (← (← cs.list?).mapM Tok.optStr?) ((← a.int?) != 0))
+  | _ => (opOf toks).map SOp.mol
 
-def main : IO Unit := runDriver handle ([] : Pool)
+def dumpState (st : State) : String :=
+  dumpPool st.pool ++ " " ++ encList (st.systems.map fun l => encList (l.map encNat))
+
+def handle (st : State) (toks : List Tok) : State × String :=
+  match toks with
+  | [Tok.str "reset"] => ({}, "ok [ ]")
+  | _ =>
+    match sopOf toks with
+    | none => (st, "bad-op")
+    | some op =>
+      let (st', o) := sstep st op
+      (st', o.str ++ " " ++ dumpState st')
+
+def main : IO Unit := runDriver handle ({} : State)
